@@ -7,7 +7,7 @@ use core::hash::{Hash, Hasher};
 use rustc_ast::ast::{self, UseTreeKind};
 use rustc_span::{
     BytePos, DUMMY_SP, Span,
-    symbol::{self, sym},
+    symbol::{self, kw},
 };
 
 use crate::comment::combine_strs_with_missing_comments;
@@ -527,7 +527,7 @@ impl UseTree {
                     rewrite_ident(context, path_to_imported_ident(&a.prefix)).to_owned()
                 };
                 let alias = rename.and_then(|ident| {
-                    if ident.name == sym::underscore_imports {
+                    if ident.name == kw::Underscore {
                         // for impl-only-use
                         Some("_".to_owned())
                     } else if ident == path_to_imported_ident(&a.prefix) {
